@@ -214,6 +214,8 @@ def ledger_episode(ctx, props, chain=False, discrete=False, prebuilt=None):
                 raise RuntimeError("episode exceeded its step cap")
             if discrete:
                 a = rng.randrange(len(cfg["allocs"]))
+                if k % 3 == 1:
+                    a = np.int64(a)            # what np.argmax returns
             elif chain:
                 a = np.array([rng.choice([0, rng.uniform(-1.5, 1.5)]), rng.uniform(-0.3, 0.5)])
             else:
